@@ -1210,9 +1210,10 @@ static int resolve(const std::string &path, bool follow, std::string *final_name
   errno = ELOOP;
   return -2;
 }
-static int alloc_fd() {
+static int alloc_fd() {      // -1: descriptor table full (EMFILE)
   State &s = *S;
   for (size_t i = 3; i < s.fds.size(); i++) if (!s.fds[i].open) return (int)i;
+  if ((int)s.fds.size() >= s.plan->nofile) return -1;
   s.fds.push_back(FdEnt());
   return (int)s.fds.size() - 1;
 }
@@ -1238,9 +1239,12 @@ int simw_open64(const char *path, int flags, ...) { SHIM;
     else if (s.world.inodes[ino].noread) r = -EACCES;
     else {
       int fd = alloc_fd();
-      FdEnt &e = s.fds[fd];
-      e = FdEnt(); e.open = true; e.ino = ino; e.role = R_IN; e.rd = true;
-      r = fd;
+      if (fd < 0) r = -EMFILE;
+      else {
+        FdEnt &e = s.fds[fd];
+        e = FdEnt(); e.open = true; e.ino = ino; e.role = R_IN; e.rd = true;
+        r = fd;
+      }
     }
   } else {
     bool excl = (flags & O_EXCL) != 0, creat = (flags & O_CREAT) != 0;
@@ -1252,19 +1256,23 @@ int simw_open64(const char *path, int flags, ...) { SHIM;
     else {
       if (ino >= 0 && s.world.inodes[ino].type == T_DIR) r = -EISDIR;
       else {
-        if (ino < 0) {
-          Inode n;
-          n.type = T_REG; n.mode = mode & 0777 & ~022u; n.uid = 1000; n.gid = 1000;
-          n.atime_s = n.mtime_s = 1600000000 + (int64_t)(s.res->sim_ns / 1000000000ull); n.atime_ns = n.mtime_ns = 0;
-          n.created = true;
-          ino = s.world.add(fin, n);
-        } else if (flags & O_TRUNC) s.world.inodes[ino].data.clear();
-        int fd = alloc_fd();
-        FdEnt &e = s.fds[fd];
-        e = FdEnt(); e.open = true; e.ino = ino; e.role = R_OUT; e.wr = true;
-        s.world.inodes[ino].open_wr++;
-        s.world.inodes[ino].closed_ok = false;
-        r = fd;
+        int fd = s.fds.size() < (size_t)s.plan->nofile || [&] { for (size_t i = 3; i < s.fds.size(); i++) if (!s.fds[i].open) return true; return false; }() ? 0 : -1;
+        if (fd < 0) r = -EMFILE;       // (checked before the file is created, like the kernel)
+        else {
+          if (ino < 0) {
+            Inode n;
+            n.type = T_REG; n.mode = mode & 0777 & ~022u; n.uid = 1000; n.gid = 1000;
+            n.atime_s = n.mtime_s = 1600000000 + (int64_t)(s.res->sim_ns / 1000000000ull); n.atime_ns = n.mtime_ns = 0;
+            n.created = true;
+            ino = s.world.add(fin, n);
+          } else if (flags & O_TRUNC) s.world.inodes[ino].data.clear();
+          fd = alloc_fd();
+          FdEnt &e = s.fds[fd];
+          e = FdEnt(); e.open = true; e.ino = ino; e.role = R_OUT; e.wr = true;
+          s.world.inodes[ino].open_wr++;
+          s.world.inodes[ino].closed_ok = false;
+          r = fd;
+        }
       }
     }
   }
@@ -1732,7 +1740,7 @@ Result run(const Plan &plan) {
   s.root_ts = __tsan_get_current_fiber();
 #endif
   s.preempt_countdown = 1;     // first instrumented access draws the first countdown
-  new_fiber(nullptr, nullptr, 0, FC_MAIN);
+  new_fiber(nullptr, nullptr, plan.inherit_mask & ~(BIT(SIGKILL) | BIT(SIGSTOP)), FC_MAIN);
   TS_REL(&s.F[0]);
   ev(OP_START, 0, 0);
   switch_to(-1, 0, false);
